@@ -185,6 +185,7 @@ def run(ctx):
     rule8_descent(ctx, w)
     rule9_union(ctx)
     rule10_halfopen(ctx)
+    rule12_dump_layout(ctx, w)
     # "shrinking a DAG during conversion preserves its totals": the per-kind edge totals of a contracted node and of the subgraph it
     # replaces agree, and the reader sums both (decided in full as C18.4)
     from . import c18
@@ -275,6 +276,184 @@ def _end_bound(f, ref, depth=0):
     if i.op == 'bitcast' or (i.op == 'phi' and len(i.d['incoming']) == 1):
         return _end_bound(f, i.ops[0] if i.op == 'bitcast' else i.d['incoming'][0][0], depth + 1)
     return bool(lib.load_terms(f, affine(f, ref), 'dr_pi_dag_node.subgraphs_end_offset'))
+
+
+def rule12_dump_layout(ctx, w):
+    ctx.doc('C19.12', 'position-independent copy of a recorded DAG (dr_pi_dag_enum_nodes / dr_copy_children_nodes): the table has exactly '
+            'dr_dag_count_nodes(g) entries, the root is entry 0, every child is copied at the allocation cursor and the offset stored in '
+            'its parent is cursor - parent for the very cursor value the child was copied at (create_task: child_offset; section / task: '
+            '[begin, end) around the loop that copies the subgraph list), the cursor advances by one entry per copied node and is '
+            'what the function returns; the four time stamps are made relative to the start clock')
+    nsz = w.structs.get('dr_pi_dag_node', {}).get('size')
+    en = ctx.enumerators('dr_dump.c', area='profiler')
+    SEC, CRE = ctx.need_enum(en, 'dr_dag_node_kind_section'), ctx.need_enum(en, 'dr_dag_node_kind_create_task')
+    f = ctx.need_fn(w, 'dr_copy_children_nodes')
+    g, p0 = 'a0', 'a1'
+    fw = [l for l in f.order if l.op == 'load' and f.field(l) == 'dr_dag_node.forward' and same_value(f, f.ap(l.ops[0]).root, g)]
+    ctx.ob('C19.12', 'copy_children: parent entry is g->forward', len(fw) == 1 and bool(nsz), 'where g itself was copied', loc=f.loc)
+    if len(fw) != 1 or not nsz:
+        return
+    gpi = fw[0].id
+
+    def cursor_of(val):
+        """X such that val == (X - g_pi) in table entries"""
+        d = f.get(f.strip(val)) if isinstance(val, str) else None
+        if d is None or d.op not in ('sdiv', 'ashr', 'udiv') or const_int(d.ops[1]) != nsz:
+            return None
+        a = {k: v for k, v in affine(f, d.ops[0]).items() if v != 0}
+        xs = [k for k in a if k != gpi]
+        if a.get(gpi) == -1 and len(xs) == 1 and a[xs[0]] == 1 and len(a) == 2:
+            return xs[0]
+        return None
+
+    def kind_edge(point, pred, c):
+        for ic in f.order:
+            if ic.op == 'icmp' and const_int(ic.ops[1]) is not None:
+                l = f.get(f.strip(ic.ops[0]))
+                if l is None or l.op != 'load' or f.field(l) != 'dr_dag_node_info.kind':
+                    continue
+                if f.strip(f.ap(l.ops[0]).root) not in (gpi, g):
+                    continue
+                k = const_int(ic.ops[1])
+                for cond, pol in lib.cond_chain(f, ic.id):
+                    for want in (True, False):
+                        if not f.on_edge(cond, want == pol, point):
+                            continue
+                        # the icmp is `want`
+                        if pred == 'create' and ((ic.pred == 'eq' and k == c and want) or (ic.pred == 'ne' and k == c and not want)):
+                            return True
+                        if pred == 'section' and ((ic.pred in ('ult', 'slt') and k == c and not want) or
+                                                  (ic.pred in ('uge', 'sge') and k == c and want) or
+                                                  (ic.pred in ('ugt', 'sgt') and k == c - 1 and want) or
+                                                  (ic.pred in ('ule', 'sle') and k == c - 1 and not want)):
+                            return True
+        return False
+    copies = call_sites(f, 'dr_copy_dag_node_1')
+    one = {'': nsz}
+    nz = lambda d: {k: v for k, v in d.items() if v != 0}
+    # create_task
+    sc = [st for st in f.order if st.op == 'store' and f.field(st) == PN + 'child_offset']
+    ctx.ob('C19.12', 'copy_children: one child_offset store', len(sc) == 1, 'g_pi->child_offset = p - g_pi', loc=f.loc)
+    for st in sc:
+        x = cursor_of(st.ops[0])
+        cp = [c for c in copies if (f.dominates_f(c, st) or f.dominates_f(st, c)) and not f.in_loop(c)]
+        okc = len(cp) == 1 and is_load_of(f, cp[0].args[0], 'dr_dag_node.child') and x is not None and f.strip(cp[0].args[1]) == f.strip(x) and \
+            f.strip(x) == p0 and f.strip(f.ap(st.ops[1]).root) == gpi
+        ctx.ob('C19.12', 'copy_children: child_offset is the distance to where the child was copied', okc,
+               'dr_copy_dag_node_1(g->child, p, ..); g_pi->child_offset = p - g_pi with the same p', loc=st.loc)
+        ctx.ob('C19.12', 'copy_children: child_offset only for a create_task node', kind_edge(st, 'create', CRE), 'kind == create_task', loc=st.loc)
+    # section / task
+    sb = [st for st in f.order if st.op == 'store' and f.field(st) == PN + 'subgraphs_begin_offset']
+    se = [st for st in f.order if st.op == 'store' and f.field(st) == PN + 'subgraphs_end_offset']
+    ctx.ob('C19.12', 'copy_children: one begin and one end store', len(sb) == 1 and len(se) == 1, 'range stores', loc=f.loc)
+    loopcp = [c for c in copies if f.in_loop(c)]
+    ctx.ob('C19.12', 'copy_children: subgraph list copied in a loop', len(loopcp) == 1, 'one copy per list element', loc=f.loc)
+    if len(sb) == 1 and len(se) == 1 and len(loopcp) == 1:
+        c = loopcp[0]
+        L = lib.loop_containing(f, c)
+        cur = f.get(f.strip(c.args[1]))
+        cell = f.get(f.strip(c.args[0]))
+        okcur = cur is not None and cur.op == 'phi' and cur.block.id == L['header'] and len(cur.d['incoming']) == 2
+        if okcur:
+            init = [v for v, b in cur.d['incoming'] if b not in L['blocks']]
+            back = [v for v, b in cur.d['incoming'] if b in L['blocks']]
+            okcur = len(init) == 1 and len(back) == 1 and f.strip(init[0]) == p0 and nz(lib.affine_diff(f, back[0], cur.id)) == one
+        ctx.ob('C19.12', 'copy_children: the cursor starts at p and advances one entry per copied child', okcur,
+               'dr_copy_dag_node_1(ch, p, ..); p++', loc=c.loc)
+        okcell = cell is not None and cell.op == 'phi' and len(cell.d['incoming']) == 2
+        if okcell:
+            vals = [f.get(f.strip(v)) for v, _b in cell.d['incoming']]
+            okcell = all(x is not None and x.op == 'load' for x in vals) and \
+                sorted(f.field(x) for x in vals) == ['dr_dag_node.next', 'dr_dag_node_list.head'] and \
+                all((f.strip(f.ap(x.ops[0]).root) == cell.id) if f.field(x) == 'dr_dag_node.next' else same_value(f, f.ap(x.ops[0]).root, g)
+                    for x in vals)
+        ctx.ob('C19.12', 'copy_children: every element of g->subgraphs is copied', okcell, 'for (ch = head; ch; ch = ch->next)', loc=c.loc)
+        xb, xe = cursor_of(sb[0].ops[0]), cursor_of(se[0].ops[0])
+        ctx.ob('C19.12', 'copy_children: begin offset is the cursor before the loop', xb is not None and f.strip(xb) == p0 and
+               not f.in_loop(sb[0]), 'subgraphs_begin_offset = (cursor before the first copy) - g_pi', loc=sb[0].loc)
+        ctx.ob('C19.12', 'copy_children: end offset is the cursor after the loop', okcur and xe is not None and f.strip(xe) == cur.id and
+               not f.in_loop(se[0]) and f.dominates_f(c.block.insts[0], se[0]) is not None and
+               se[0].block.id not in L['blocks'], 'subgraphs_end_offset = p - g_pi after the last copy', loc=se[0].loc)
+        for st in (sb[0], se[0]):
+            ctx.ob('C19.12', 'copy_children: range stores only for a section / task node', kind_edge(st, 'section', SEC) and
+                   f.strip(f.ap(st.ops[1]).root) == gpi, 'kind >= section, into g_pi', loc=st.loc)
+        for val, anchor in ret_cases(f):
+            v_ = f.strip(val) if isinstance(val, str) else None
+            d0 = nz(lib.affine_diff(f, val, p0)) if isinstance(val, str) else None
+            if kind_edge(anchor, 'section', SEC):
+                ok = okcur and v_ == cur.id
+            elif kind_edge(anchor, 'create', CRE):
+                ok = d0 == one
+            else:
+                ok = d0 == {}
+            ctx.ob('C19.12', 'copy_children: returns the advanced cursor', ok,
+                   'p + number of entries written (the caller continues allocating there)', loc=anchor.loc)
+    # time stamps
+    for fld in ('dr_clock_pos.t', 'dr_dag_node_info.first_ready_t', 'dr_dag_node_info.last_start_t'):
+        sts = [st for st in f.order if st.op == 'store' and f.field(st) == fld and f.strip(f.ap(st.ops[1]).root) == gpi]
+        want = 2 if fld == 'dr_clock_pos.t' else 1
+        ok = len(sts) == want
+        for st in sts:
+            a = nz(affine(f, st.ops[0]))
+            own = [k for k in a if k in f.insts and f.insts[k].op == 'load' and lib.same_addr(f, f.insts[k].ops[0], st.ops[1])]
+            ok = ok and len(own) == 1 and a == {own[0]: 1, 'a3': -1}
+        ctx.ob('C19.12', 'copy_children: %s made relative to the start clock' % fld.split('.')[1], ok, 't -= start_clock, once', loc=f.loc)
+    # table construction
+    e = ctx.need_fn(w, 'dr_pi_dag_enum_nodes')
+    cnt = call_sites(e, 'dr_dag_count_nodes')
+    mal = [c for c in e.calls() if c.callee == 'dr_malloc']
+    okn = len(cnt) == 1 and same_value(e, cnt[0].args[0], 'a1') and len(mal) == 1 and nz(affine(e, mal[0].args[0])) == {cnt[0].id: nsz}
+    ctx.ob('C19.12', 'enum_nodes: table of dr_dag_count_nodes(g) entries', okn, 'T = dr_malloc(sizeof(dr_pi_dag_node) * n)', loc=e.loc)
+    if okn:
+        T = mal[0].id
+        ms = [c for c in e.calls() if (c.callee or '').startswith('llvm.memset') and e.strip(c.args[0]) == T]
+        ctx.ob('C19.12', 'enum_nodes: table cleared in full', len(ms) == 1 and const_int(ms[0].args[1]) == 0 and
+               lib.same_expr(e, ms[0].args[2], mal[0].args[0]), 'memset(T, 0, sizeof(node) * n)', loc=(ms[0].loc if ms else e.loc))
+        root = [c for c in call_sites(e, 'dr_copy_dag_node_1') if not e.in_loop(c)]
+        def is_T_plus_n(ref):
+            g_ = e.get(e.strip(ref)) if isinstance(ref, str) else None
+            return g_ is not None and g_.op == 'getelementptr' and e.strip(g_.d['base']) == T and len(g_.d['path']) == 1 and \
+                'p' in g_.d['path'][0] and e.strip(g_.d['path'][0]['p']) == cnt[0].id and g_.d.get('srcty', '').endswith('dr_pi_dag_node')
+        okr = len(root) == 1 and same_value(e, root[0].args[0], 'a1') and e.strip(root[0].args[1]) == T and is_T_plus_n(root[0].args[2])
+        ctx.ob('C19.12', 'enum_nodes: the root is entry 0, lim = T + n', okr, 'dr_copy_dag_node_1(g, T, T + n, st)', loc=(root[0].loc if root else e.loc))
+        cc = call_sites(e, 'dr_copy_children_nodes')
+        okl = len(cc) == 1 and e.in_loop(cc[0])
+        if okl:
+            L = lib.loop_containing(e, cc[0])
+            cur = e.get(e.strip(cc[0].args[1]))
+            okl = cur is not None and cur.op == 'phi' and cur.block.id == L['header'] and len(cur.d['incoming']) == 2
+            if okl:
+                init = [v for v, b in cur.d['incoming'] if b not in L['blocks']]
+                back = [v for v, b in cur.d['incoming'] if b in L['blocks']]
+                pops = [c for c in call_sites(e, 'dr_dag_node_stack_pop') if c.block.id in L['blocks']]
+                pc = [c for c in call_sites(e, 'dr_dag_node_stack_push_children') if c.block.id in L['blocks']]
+                okl = len(init) == 1 and nz(lib.affine_diff(e, init[0], T)) == {'': nsz} and len(back) == 1 and e.strip(back[0]) == cc[0].id and \
+                    len(pops) == 1 and e.strip(cc[0].args[0]) == pops[0].id and len(pc) == 1 and e.strip(pc[0].args[1]) == pops[0].id and \
+                    same_value(e, cc[0].args[3], 'a2') and lib.same_expr(e, cc[0].args[2], root[0].args[2] if root else cc[0].args[2])
+        ctx.ob('C19.12', 'enum_nodes: children of every popped node are copied at the running cursor, then pushed', okl,
+               'p = T + 1; while (stack) { x = pop; p = dr_copy_children_nodes(x, p, lim, start_clock, st); push_children(x); }',
+               loc=(cc[0].loc if cc else e.loc))
+        sn = e.stores_to(PI + 'n')
+        sT = e.stores_to(PI + 'T')
+        ctx.ob('C19.12', 'enum_nodes: G->n and G->T describe the table', len(sn) == 1 and e.strip(sn[0].ops[0]) == cnt[0].id and
+               len(sT) == 1 and e.strip(sT[0].ops[0]) == T, 'G->n = n; G->T = T', loc=e.loc)
+    # the count visits what the enumeration visits
+    cn = ctx.need_fn(w, 'dr_dag_count_nodes')
+    pops = call_sites(cn, 'dr_dag_node_stack_pop')
+    okc = len(pops) == 1 and cn.in_loop(pops[0])
+    if okc:
+        L = lib.loop_containing(cn, pops[0])
+        nph = [ph for ph in cn.blocks[L['header']].insts if ph.op == 'phi' and len(ph.d['incoming']) == 2 and
+               any(const_int(v) == 0 for v, b in ph.d['incoming'] if b not in L['blocks']) and
+               any(nz(lib.affine_diff(cn, v, ph.id)) == {'': 1} for v, b in ph.d['incoming'] if b in L['blocks'])]
+        rets = [r for r in cn.order if r.op == 'ret' and r.ops]
+        okc = len(nph) == 1 and all(cn.strip(r.ops[0]) == nph[0].id for r in rets) and bool(rets)
+        pch = [c for c in call_sites(cn, 'dr_dag_node_stack_push_children') if c.block.id in L['blocks'] and cn.strip(c.args[1]) == pops[0].id]
+        psh = [c for c in call_sites(cn, 'dr_dag_node_stack_push') if c.block.id in L['blocks'] and is_load_of(cn, c.args[1], 'dr_dag_node.child')]
+        okc = okc and len(pch) == 1 and len(psh) == 1
+    ctx.ob('C19.12', 'count_nodes: one per popped node; pushes the child of a create_task and the subgraphs of a section / task', okc,
+           'the count is the number of entries the enumeration writes', loc=cn.loc)
+    ctx.floor('C19.12', 20)
 
 
 def rule10_halfopen(ctx):
@@ -1068,6 +1247,16 @@ def rule5_growth(ctx):
 DUMP = 'src/profiler/dr_dump.c'
 READ = 'src/profiler/read_dag.c'
 MUTANTS = [
+    {'name': 'dump: child offset taken after the cursor moved', 'expect': 'C19.12',
+     'edits': [('src/profiler/dr_dump.c', "      g_pi->child_offset = p - g_pi;\n      p++;", "      p++;\n      g_pi->child_offset = p - g_pi;")]},
+    {'name': 'dump: subgraph end offset measured from the table cursor start', 'expect': 'C19.12',
+     'edits': [('src/profiler/dr_dump.c', "    g_pi->subgraphs_end_offset = p - g_pi;\n  }\n  return p;", "    g_pi->subgraphs_end_offset = p - g_pi - 1;\n  }\n  return p;")]},
+    {'name': 'dump: last_start_t left absolute', 'expect': 'C19.12',
+     'edits': [('src/profiler/dr_dump.c', "  g_pi->info.last_start_t  -= start_clock;\n", "")]},
+    {'name': 'dump: enumeration cursor not advanced past the root', 'expect': 'C19.12',
+     'edits': [('src/profiler/dr_dump.c', "  dr_copy_dag_node_1(g, p, lim, st);\n  p++;\n  dr_dag_node_stack_push(s, g);", "  dr_copy_dag_node_1(g, p, lim, st);\n  dr_dag_node_stack_push(s, g);")]},
+    {'name': 'dump: count skips the child of a create_task', 'expect': 'C19.12',
+     'edits': [('src/profiler/dr_dump.c', "\tdr_dag_node_stack_push(s, x->child);\n      }\n    } else {\n      dr_dag_node_stack_push_children(s, x);\n    }\n  }\n  dr_dag_node_stack_fini(s);\n  return n;", "      }\n    } else {\n      dr_dag_node_stack_push_children(s, x);\n    }\n  }\n  dr_dag_node_stack_fini(s);\n  return n;")]},
     {'name': 'string table flatten forgets the terminating NUL when measuring', 'expect': 'C19.4',
      'edits': [('src/profiler/dr_dump.c', "    str_bytes += strlen(c->s) + 1;", "    str_bytes += strlen(c->s);")]},
     {'name': 'string table flatten records offsets relative to the block, not to C', 'expect': 'C19.4',
